@@ -152,6 +152,11 @@ func runConc(args []string) int {
 				put("decrypt", hx(pt))
 				pp, _ := bec.ParsePubKey(pub.SerialiseCompressed(), bec.S256())
 				put("parsepub", nhx(pp.Y))
+				// ... and its negation (same X, other prefix) straight afterwards: a memo keyed by X alone answers for the twin
+				twin := pub.SerialiseCompressed()
+				twin[0] ^= 1
+				pn, _ := bec.ParsePubKey(twin, bec.S256())
+				put("parsepub.twin", nhx(pn.Y))
 				x, y := bec.S256().ScalarMult(pub.X, pub.Y, hash)
 				put("smul", nhx(x)+nhx(y))
 				// codecs and hashes
